@@ -61,6 +61,9 @@ Proof.
     change (uses (SWhile lvs ss bc) s) with (uses_l ss (use_triples lvs s)).
     change (uses (SWhile lvs ss bc) []) with (uses_l ss (use_triples lvs [])).
     rewrite (H (use_triples lvs s)), (H (use_triples lvs [])), !In_use_triples. cbn. tauto.
+  - intros y tn es s x. cbn. rewrite !In_use_exprs. cbn. tauto.
+  - intros y s x. cbn. tauto.
+  - intros y e s x. cbn. rewrite !In_use_expr. cbn. tauto.
   - intros s x. cbn. tauto.
   - intros st r Hs Hr s x. cbn [uses_l]. rewrite (Hr (uses st s)), (Hr (uses st [])), (Hs s). tauto.
 Qed.
@@ -175,6 +178,10 @@ Proof.
       * rewrite E in Hl1. apply in_scope_var in Hl1. auto.
       * rewrite E in Hl2. apply in_scope_var in Hl2. rewrite !in_app_iff in Hl2. destruct Hl2 as [Hi|[Hi|Hi]]; auto.
         right. right. left. now apply defs_l_in_binders.
+  - intros y tn es S x H. cbn in H. cbn [uses]. rewrite In_use_exprs. intros [Hi|[]].
+    left. rewrite forallb_forall in H. apply in_scope_var. now apply H.
+  - intros y S x H. discriminate H.
+  - intros y e S x H. discriminate H.
   - intros S x _ [].
   - intros st r Hs Hr S x H. cbn in H. apply andb_prop in H. destruct H as [H1 H2].
     cbn [uses_l binders_l]. rewrite uses_l_spec, in_app_iff. intros [Hx|Hx].
@@ -326,6 +333,15 @@ Proof.
       * left. apply in_map_iff in Hx. destruct Hx as [t [E Ht]]. apply in_map_iff. exists t. split; auto.
         apply F2 in Ht. apply filter_In in Ht. tauto.
       * right. right. destruct bc as [b|]; cbn in *; [|tauto]. destruct (memb b s); cbn in *; tauto.
+  - intros y tn es s. cbn [dce_stmt uses]. destruct (negb (memb y s)); cbn.
+    + repeat split; auto; try (intros x []).
+    + repeat split; intros x; rewrite ?In_use_exprs; cbn; tauto.
+  - intros y s. cbn [dce_stmt uses]. destruct (negb (memb y s)); cbn.
+    + repeat split; auto; try (intros x []).
+    + repeat split; intros x; cbn; tauto.
+  - intros y e s. cbn [dce_stmt uses]. destruct (negb (memb y s)); cbn.
+    + repeat split; auto; try (intros x []).
+    + repeat split; intros x; rewrite ?In_use_expr; cbn; tauto.
   - intros s. cbn. repeat split; auto; try (intros x []).
   - intros st r Hs Hr s. cbn [dce_stmts]. destruct (Hr s) as (A1 & A2 & A3).
     destruct (dce_stmts r s) as [r' s1]. cbn [fst snd] in *.
